@@ -319,6 +319,21 @@ def _():
         """            if result_constraint.min and result_constraint.min.precision >= 2:
                 # Convert""")
 
+@fix("D27", "fix: environment values of string markers are taken literally, not parsed as constraints (platform_version with blanks)")
+def _():
+    sub("version/markers.py",
+        """        else:
+            self._parser = parse_generic_constraint
+
+    @property
+    def name(self) -> str:""",
+        """        else:
+            # the value of the environment is a plain string, not a constraint expression
+            self._parser = Constraint
+
+    @property
+    def name(self) -> str:""")
+
 def main():
     id_ = sys.argv[1]
     msg, f = FIXES[id_]
